@@ -23,6 +23,12 @@ CHECKS = {
         text="Bounded model checking. Round trip and getLink are confirmed over all paths for symbolic name/url/location strings up to 3 (4) characters. Reader totality (_parseInventoryLine, _parseInventory, update, _getPayload) is decided for every line of <=4 (6) tokens from a 9-token table and every payload of <=3 (4) chunks from an 8-chunk table x decompressor behaviour; the writer is decided on an 11-object model under all 2048 hidden/visible tables and read back by both readers.",
         note="Trusted: CrossHair exhaustion verdict; token/chunk tables as the abstraction of malformed input (stated in evidence); Sphinx 9.1 loader as foreign reader; zlib stub contract.",
     ),
+    "C19": dict(
+        level="model_checking", design="DESIGN.md §3 C19",
+        technique="CrossHair (z3) symbolic execution of Visitor.walk/walkabout with the main visitor's pruning decisions as lazily-read symbolic variables; event trace judged against the documented contract; solver-enumerated module shapes for the builder stack",
+        text="Bounded model checking of the real visitor: for every rooted ordered tree of <=3 (4) nodes, every set of extension timings, and every assignment of a visit action (5 values) and depart action (2 values) to the nodes the walk actually reaches, CrossHair exhausts the paths of walk/walkabout and the recorded trace satisfies: no escape, each node entered once, extensions enter exactly the nodes the main visitor enters, enter/leave nest like the tree, entry order BEFORE,OUTTER,main,AFTER,INNER and exit order BEFORE,INNER,main,AFTER,OUTTER, main trace equals the documented pruning semantics. The builder stack discipline is checked on 4394 generated modules.",
+        note="Trusted: CrossHair exhaustion verdict; my executable reading of the docstrings in visitor.py (reference walker in the harness); only the main visitor prunes.",
+    ),
 }
 
 NOT_APPLICABLE = {
